@@ -20,6 +20,7 @@ mkdir -p "$MH/.cargo"
 sed -e "s#path = \"/repo\"#path = \"$WT\"#" -e 's#path = "src/#path = "/verif/harness/src/#' /verif/harness/Cargo.toml > "$MH/Cargo.toml"
 cp /verif/harness/Cargo.lock "$MH/Cargo.lock"
 printf '[net]\noffline = true\n' > "$MH/.cargo/config.toml"
+rm -f "$MH/target/release/rvcheck"
 (cd "$MH" && CARGO_NET_OFFLINE=true cargo build --release --offline 2>&1 | grep -E "^(error|warning: unused)" -A8 | head -40)
 [ -x "$MH/target/release/rvcheck" ] || { echo "build failed"; exit 2; }
 ln -s /verif/assets "$VD/assets"; cp /verif/known_findings.json "$VD/"; ln -s /verif/corpus "$VD/corpus" 2>/dev/null
